@@ -57,7 +57,7 @@ FaultKinds == {"undefined-symbol", "duplicate-label", "duplicate-constant", "dup
                \* characters outside an alphabet that Unicode case mapping folds into it (dotted capital I, Kelvin sign, dotless i, long s)
                "caret-r-case-folding-character", "rad50-case-folding-character", "mnemonic-case-folding-character",
                \* a diagnostic with spans in two files (the earlier definition far down in a long included file)
-               "cross-file-duplicate-export", "cross-file-duplicate-constant", "cross-file-sob-forward"}
+               "cross-file-duplicate-export", "cross-file-duplicate-constant", "cross-file-sob-forward", "non-ascii-digit"}
 
 (* ---- terminal classes (the renderer's table has one entry per name) ---- *)
 AtomClasses == {"oct", "dec", "d89", "cnum", "caretnum", "negnum", "bignum", "name", "namecolon", "local", "localcolon",
@@ -72,7 +72,7 @@ OtherTerminals == {"nl", ",", ":", "::", "=", "==", "(", ")", ")+", "-(", "@", "
 Terminals == AtomClasses \cup InfixClasses \cup OtherTerminals \cup {"fault:" \o k : k \in FaultKinds}
 
 MaxStmts == 60
-CharSetSize == 35          \* the character set of section 4 (35 characters; the list is in harness/grammar.py)
+CharSetSize == 37          \* the character set of section 4 (37 characters; the list is in harness/grammar.py)
 
 (* ---- productions: nonterminal (with depth d) -> set of right-hand sides ---- *)
 Deeper(d) == d < MaxDepth
